@@ -467,7 +467,9 @@ class Engine:
                 if self.npaths > self.max_paths:
                     raise TooComplex("%s: more than %d paths" % (item.path, self.max_paths))
                 # loop header handling
-                if bb in shape["loops"]:
+                if bb in shape["loops"] and self.array_loop(item, frame, bb, shape["loops"][bb], st):
+                    pass    # a loop over an array literal of known length is evaluated iteration by iteration (its iterator is concrete)
+                elif bb in shape["loops"]:
                     if (frame, bb) in loops:
                         self.npaths += 1
                         p = Path("backedge", None, trace, st, frame, loop=bb)
@@ -576,6 +578,43 @@ class Engine:
                     continue
                 # other terminators: stop
                 break
+
+    ARRAY_NEXT_RX = re.compile(r"^<std::array::IntoIter<T, N> as std::iter::Iterator>::next$")
+
+    def array_loop(self, item, frame, header, body, st):
+        """True when the loop at `header` is driven by `for x in [a, b, ..]` over an array literal whose elements are known here
+        (at most 16): its iterator becomes a concrete cursor and the body is evaluated once per element instead of being
+        summarised; the cursor is created on first entry and found again on the later ones"""
+        for b in body:
+            t = item.blocks[b]["term"]
+            if t["k"] != "call" or not self.ARRAY_NEXT_RX.search(callee_name(t).split("@")[0]):
+                continue
+            a = t["args"][0]
+            pl = a.get("cp") or a.get("mv")
+            if pl is None:
+                return False
+            # `next(&mut iter)`: the argument is a temporary holding &mut iter, assigned in the same block
+            def borrowed(l):
+                for s_ in item.blocks[b]["stmts"]:
+                    if s_["k"] == "assign" and s_["p"]["l"] == l and not s_["p"]["proj"] and s_["rv"]["k"] in ("ref", "rawptr"):
+                        return s_["rv"]["p"]
+                return None
+            src = borrowed(pl["l"])
+            n_ = 0
+            while src is not None and len(src["proj"]) == 1 and src["proj"][0][0] == "deref" and n_ < 3:
+                src = borrowed(src["l"])      # a reborrow `&mut *tmp` of `tmp = &mut iter`
+                n_ += 1
+            if src is None or src["proj"]:
+                return False
+            key = (frame, src["l"])
+            v = st.get(key)
+            if isinstance(v, tuple) and v and v[0] == "arrayiter":
+                return True
+            if isinstance(v, tuple) and v and v[0] == "array" and 0 < len(v[1]) <= 16:
+                st[key] = ("arrayiter", v[1], 0)
+                return True
+            return False
+        return False
 
     def havoc_loop(self, item, frame, header, body, st, trace):
         assigned = set()
@@ -813,6 +852,14 @@ class Engine:
             if isinstance(base, tuple) and base and base[0] == "ref":
                 return ("ref", base[1], base[2] + (("idx", ix),))
             return project(bv, ("idx", ix))
+        if self.ARRAY_NEXT_RX.search(name) and n == 1 and isinstance(raw_args[0], tuple) and raw_args[0][0] == "ref":
+            cur = self.load_cell(st, raw_args[0][1], raw_args[0][2])
+            if isinstance(cur, tuple) and cur and cur[0] == "arrayiter":
+                elems, k = cur[1], cur[2]
+                if k < len(elems):
+                    self.store_cell(st, raw_args[0][1], raw_args[0][2], ("arrayiter", elems, k + 1))
+                    return ("adt", "std::option::Option", "Some", ("0",), (elems[k],))
+                return ("adt", "std::option::Option", "None", (), ())
         if re.search(r"std::convert::(Into|From)(<.*>)?>?::(into|from)$", name) and n == 1:
             tys = [x for x in split_substs(rs) if not x.startswith("'")]
             if len(tys) == 2 and tys[0] == tys[1]:
